@@ -136,32 +136,26 @@ theorem C07_relu_affine_in_f (t : Tie) (c : ReluCfg) (f : ℚ) (useSte : Bool) (
     below the bound … -/
 theorem C07_relu_act_le_bound (c : ReluCfg) (ub : ℚ) (hc : c.clamp = some ub) (h0 : 0 ≤ ub) (x : ℚ) :
     c.act x ≤ ub := by
-  unfold ReluCfg.clamp at hc
-  cases hq : c.qclip
-  · rw [hq] at hc
-    cases hu : c.upper with
-    | none => rw [hu] at hc; simp at hc
-    | some u =>
-      rw [hu] at hc
-      by_cases h : u = 0
-      · simp [h] at hc
-      · simp only [Bool.false_eq_true, if_false, h] at hc
-        cases hc
-        simp only [ReluCfg.act, hq, Bool.false_eq_true, if_false, hu]
-        split
-        · rename_i hx
-          unfold ReluCfg.lrelu
-          split
-          · rename_i hneg
-            have hs : 0 ≤ c.slope := by
-              unfold ReluCfg.slope
-              cases c.slopeLog with
-              | none => exact le_refl _
-              | some k => exact le_of_lt (QKV.pow2_pos _)
-            nlinarith
-          · exact hx
-        · exact le_refl _
-  · rw [hq] at hc; simp at hc
+  have hq : c.qclip = false := by
+    cases hq : c.qclip
+    · rfl
+    · unfold ReluCfg.clamp at hc; rw [hq] at hc; simp at hc
+  have hu : c.upper = some ub := by
+    unfold ReluCfg.clamp at hc; rw [hq] at hc; simpa using hc
+  simp only [ReluCfg.act, hq, Bool.false_eq_true, if_false, hu]
+  split
+  · rename_i hx
+    unfold ReluCfg.lrelu
+    split
+    · rename_i hneg
+      have hs : 0 ≤ c.slope := by
+        unfold ReluCfg.slope
+        cases c.slopeLog with
+        | none => exact le_refl _
+        | some k => exact le_of_lt (QKV.pow2_pos _)
+      nlinarith
+    · exact hx
+  · exact le_refl _
 
 /-- … so for `f ∈ [0,1]` the mixed output already respects the bound: no clip of the result is
     needed (and none is applied by the code) -/
